@@ -48,6 +48,15 @@ ASSUMPTIONS = [
     '`checkpointed` the reference root of a height is the hub header of that height (a chunk that hashes to its '
     'checkpoint is the hub chain), never the local copy',
     'the verdict is taken at the height the wallet records for the transaction (tx.height / saved row height)',
+    'reorganisations (family `reorg`): the hub replaces its last 1..3 blocks by a LONGER branch (an equal-height '
+    'one-block tip replacement is connected by update_headers without its rewind branch and is not generated, see '
+    'report); wallet transactions of replaced blocks stay, move or drop back to the mempool, they never vanish',
+    'rows after a reorganisation are judged only at quiescence after every changed address was notified, the wallet '
+    'holds exactly the hub headers, and the history re-sync of every address the transaction touches has completed '
+    '(stored history == hub history); a verified row must then belong to a transaction of the current block at its '
+    'height (membership; a row whose transaction kept its height is not re-proven by the product)',
+    'results of the cached path are judged strictly: the proof the object was accepted with must reproduce the '
+    'root of the header held at its height at the time it is handed back',
     'the hub may lie about proofs, heights and transaction bytes but answers every request with well-formed JSON '
     '(hex strings, integer pos)',
     'lbry.wallet.claim_proofs.verify_proof (legacy, unused by any live path) is not exercised',
@@ -242,7 +251,7 @@ def _gen_reorg(r, sc, big):
                 stage()
             cached(False)
         k = r.choice([1, 1, 1, 2, 2, 3])
-        ops.append({'op': 'reorg', 'n': n, 'k': k, 'extra': r.choice([1, 1, 1, 2, 0] if k > 1 else [1, 1, 1, 2]),
+        ops.append({'op': 'reorg', 'n': n, 'k': k, 'extra': r.choice([1, 1, 1, 2, 0]),
                     'notify': r.random() < 0.75}); n += 1
         if r.random() < 0.4:
             blocks(1)                      # the next block of the new branch (its header makes the wallet catch up)
@@ -507,6 +516,19 @@ def execute(scenario, keep_trace=False):
             run.probes['rows_checked_after_reorg'] += 1
             tx = hub.txs.get(hub.alias.get(txid, txid))
             if tx is None or tx.height != height:
+                # only once the history sync of every wallet address the transaction touches has COMPLETED on the
+                # current chain (a Byzantine answer during that re-sync, e.g. altered bytes, makes it fail: then the
+                # product legitimately still shows the row of its last successful sync)
+                real_id = hub.alias.get(txid, txid)
+                touched = [a for a in sorted(hub.addr_txs) if real_id in hub.addr_txs[a]]
+                synced = True
+                for a in touched:
+                    got = W.sql("select history from pubkey_address where address = ?", (a,))
+                    if not got or (got[0][0] or '') != hub.history_string(a):
+                        synced = False
+                if touched and not synced:
+                    run.probes['row_after_reorg_address_not_resynced'] += 1
+                    continue
                 e = last_saved.get(txid)
                 now = 'gone' if tx is None else ('in the mempool' if tx.height is None else f'at height {tx.height}')
                 return run.violation('C08.verified_without_proof', f'{where}: after the reorganisation(s) {hub.reorgs} and '
